@@ -2,6 +2,7 @@
 # usage: tools/seed_confirm.sh <Cxx> <k> [more property ids to run the checks of]
 #   env SEED_SRC=<dir with patch.diff, demo_test.go, notes.md> (default /tmp/wt/<Cxx>/OUT/<k>)
 #   env CHECK_REPO=<tree the checks are run against with the patch applied> (default /repo)
+#   env CHECK_BIN=<frozen copy of bin/rdpgwlint to use instead of ./check (which rebuilds when sources changed)>
 # Confirms a sub-agent's seeded change in a scratch worktree (compiles, suite passes,
 # demo fails with / passes without), stores it under /verif/seeded/<Cxx>-<k>/ and runs
 # the property's check against /repo with the patch applied (undone straight afterwards).
@@ -45,7 +46,8 @@ cd /verif
 git -C "$CR" apply "$DST/patch.diff" || { res "apply to $CR FAILED"; exit 1; }
 DET=""
 for id in $P "$@"; do
-  OUT=$(VERIF_REPO="$CR" ./check $id quick 2>&1); RC=$?
+  if [ -n "${CHECK_BIN:-}" ]; then OUT=$(VERIF_NO_EVIDENCE=1 VERIF_DIR=/verif "$CHECK_BIN" -property $id -tier quick -repo "$CR" 2>&1); RC=$?
+  else OUT=$(VERIF_NO_EVIDENCE=1 VERIF_REPO="$CR" ./check $id quick 2>&1); RC=$?; fi
   echo "$OUT" | grep -v "^  rule\|^analysed\|^rdpgwlint" | head -12 > "$DST/check_$id.out"
   res "check $id: exit $RC"
   [ $RC -eq 1 ] && DET="$DET $id"
